@@ -5,6 +5,7 @@ Trace vocabulary (events of a path):  Call(target, method, args)  Yield(value)  
 A path explored with explore_abandon=True ends at every yield with the consumer never resuming (exception in a later
 step, kill): commit events (close / rename / callback) must not occur on such paths.
 """
+from contracts.common import fn_named
 from contracts.common import (Item, mk_resource, mk_package, mk_package2, run_spec, ghost_row, expect_no_raise_or_same, _b)
 
 P = 'dataflows/processors/'
@@ -28,12 +29,21 @@ def tname(e):
     return t if isinstance(t, str) else getattr(t, 'name', str(t))
 
 
+# observations that change nothing: adding or removing one of them is not a change of the effect trace
+BENIGN_CALLS = {'os.path.exists', 'os.path.isdir', 'os.path.isfile', 'os.path.getsize', 'os.path.getmtime', 'os.getcwd', 'os.getpid',
+                'time.time', 'time.monotonic', 'os.stat', 'os.listdir'}
+BENIGN_METHODS = {'tell', 'fileno', 'isatty', 'readable', 'writable', 'seekable', 'qsize', 'empty', 'full'}
+
+
 def effect_names(events):
-    """compact trace: names of effect events in order"""
+    """compact trace: names of effect events in order (pure observations are left out)"""
     out = []
     for e in events:
         if e.kind == 'Call':
-            out.append(tname(e) + ('.' + e.method if e.method != '__call__' else ''))
+            nm = tname(e) + ('.' + e.method if e.method != '__call__' else '')
+            if nm in BENIGN_CALLS or e.method in BENIGN_METHODS:
+                continue
+            out.append(nm)
         elif e.kind in ('Yield', 'YieldFrom', 'Drain', 'Abandon', 'Exhausted', 'Pull'):
             out.append(e.kind)
     return out
@@ -143,7 +153,7 @@ def sym_stream_func(vc):
             def at_end(it, env, res, events):
                 names = effect_names(events)
                 ys = yields_of(events)
-                ok = len(ys) == 1 and isinstance(ys[0].obj, GenObj) and ys[0].obj.fn.name == 'res_writer' and \
+                ok = len(ys) == 1 and isinstance(ys[0].obj, GenObj) and fn_named(ys[0].obj, 'res_writer') and \
                     ys[0].obj.args[0] is res
                 check(it, 'each-resource-wrapped-by-the-row-writer[%s]' % file_kind, ok)
                 check(it, 'resource-boundary-written-after-the-resource[%s]' % file_kind,
@@ -230,22 +240,22 @@ def sym_checkpoint(vc):
         j2 = z3.Function('os.path.join2', StrS, StrS, StrS)
         final = j2(j2(base.t, name.t), z3.StringVal('stream.ndjson'))
         ex = calls(evs, target='os.path.exists')
-        check(it, 'existence-tested-once-on-the-final-name', len(ex) == 1 and _b(True))
-        if len(ex) == 1:
-            check(it, 'existence-test-names-the-final-file', term(ex[0].objs[0], StrS) == final)
+        check(it, 'existence-tested-on-the-final-name', len(ex) >= 1 and _b(True))
+        for x_ in ex:
+            check(it, 'existence-test-names-the-final-file', term(x_.objs[0], StrS) == final)
         exists = L.FS_EXISTS(final)
         opens = calls(evs, target='open')
         if isinstance(chain, tuple):
             # resume branch
             check(it, 'resume-only-if-final-exists', exists)
-            ok = len(chain) == 1 and isinstance(chain[0], FuncDefV) and chain[0].name == 'func' and \
+            ok = len(chain) == 1 and isinstance(chain[0], FuncDefV) and fn_named(chain[0], 'func') and \
                 'unstream' in chain[0].qualname
             check(it, 'resume-chain-is-exactly-the-reader', ok)
             check(it, 'resume-opens-the-final-file-for-reading-only', len(opens) == 1 and
                   _b(opens[0].objs[1] == 'r') and True)
             if len(opens) == 1:
                 check(it, 'resume-reads-the-final-name', term(opens[0].objs[0], StrS) == final)
-            check(it, 'resume-touches-nothing-else', [n for n in effect_names(evs)] == ['os.path.exists', 'open'])
+            check(it, 'resume-touches-nothing-else', [n for n in effect_names(evs)] == ['open'])
             cover(it, 'resume-reachable')
         else:
             check(it, 'save-only-if-final-absent', z3.Not(exists))
@@ -258,8 +268,8 @@ def sym_checkpoint(vc):
                 check(it, 'save-chain-starts-with-the-swallowed-steps', fparts is not None and len(fparts) == 2 and
                       isinstance(fparts[1], PyList) and fparts[1].items == [s1, s2])
                 check(it, 'save-chain-ends-with-writer-and-notify', isinstance(tail, tuple) and len(tail) == 2 and
-                      isinstance(tail[0], FuncDefV) and 'stream' in tail[0].qualname and tail[0].name == 'func' and
-                      isinstance(tail[1], FuncDefV) and tail[1].name == 'step')
+                      isinstance(tail[0], FuncDefV) and 'stream' in tail[0].qualname and fn_named(tail[0], 'func') and
+                      isinstance(tail[1], FuncDefV) and fn_named(tail[1], 'step'))
             if len(opens) == 1:
                 check(it, 'save-writes-under-the-active-name', z3.And(
                     term(opens[0].objs[0], StrS) == z3.Concat(final, z3.StringVal('.active')), _b(opens[0].objs[1] == 'w')))
@@ -485,7 +495,7 @@ def sym_dsp_base(vc):
 
         def at_end(it, env, r, events):
             ys = yields_of(events)
-            ok = len(ys) == 1 and isinstance(ys[0].obj, GenObj) and ys[0].obj.fn.name == 'process_resource' and \
+            ok = len(ys) == 1 and isinstance(ys[0].obj, GenObj) and fn_named(ys[0].obj, 'process_resource') and \
                 ys[0].obj.args[-1] is r
             check(it, 'one-lazy-generator-per-resource', ok)
             check(it, 'no-row-pulled-when-handing-out-the-generator', r.stream.drained is False and
